@@ -431,3 +431,394 @@ Proof.
   rewrite Hlen in *.
   rewrite leaf_count_tsum, node_count_tsum, inner_count_tsum, big_count_tsum, nnodes_split. lia.
 Qed.
+
+(* ====================================================================== *)
+(* Part 2: sizes.  Bounds on varints, packed fields, bitmaps.              *)
+(* ====================================================================== *)
+From Coq Require Import ZifyN.
+Ltac Zify.zify_post_hook ::= Z.div_mod_to_equations.
+
+Section SizeBounds.
+Local Open Scope N_scope.
+
+Lemma size_var_le : forall f x, size_var f x <= N.of_nat f.
+Proof.
+  induction f as [|f IH]; intros x; cbn [size_var]; [lia|].
+  destruct (x <? 128); [lia|]. specialize (IH (x / 128)). lia.
+Qed.
+
+Lemma sv_le10 x : size_varint x <= 10.
+Proof. unfold size_varint. pose proof (size_var_le 10 x). lia. Qed.
+
+Lemma size_var_lin : forall f x, size_var f x <= 1 + x / 128.
+Proof.
+  induction f as [|f IH]; intros x; cbn [size_var]; [lia|].
+  destruct (N.ltb_spec x 128); [lia|]. specialize (IH (x / 128)). lia.
+Qed.
+
+Lemma sv_lin x : size_varint x <= 1 + x / 128.
+Proof. apply size_var_lin. Qed.
+
+Lemma size_var_pow : forall k f x, x < 128 ^ N.of_nat (S k) -> size_var f x <= N.of_nat (S k).
+Proof.
+  induction k as [|k IH]; intros f x Hx.
+  - destruct f; cbn [size_var]; [lia|]. change (128 ^ N.of_nat 1) with 128 in Hx.
+    destruct (N.ltb_spec x 128); lia.
+  - destruct f; cbn [size_var]; [lia|].
+    destruct (N.ltb_spec x 128); [lia|].
+    assert (x / 128 < 128 ^ N.of_nat (S k)) as Hq.
+    { replace (N.of_nat (S (S k))) with (N.succ (N.of_nat (S k))) in Hx by lia.
+      rewrite N.pow_succ_r' in Hx. apply N.div_lt_upper_bound; lia. }
+    specialize (IH f (x / 128) Hq). lia.
+Qed.
+
+Lemma sv_le5 x : x < 34359738368 -> size_varint x <= 5.
+Proof. intros H. apply (size_var_pow 4 10 x). exact H. Qed.
+
+Lemma sv_le3 x : x < 2097152 -> size_varint x <= 3.
+Proof. intros H. apply (size_var_pow 2 10 x). exact H. Qed.
+
+Lemma sv_le1 x : x < 128 -> size_varint x <= 1.
+Proof. intros H. apply (size_var_pow 0 10 x). exact H. Qed.
+
+(* tag + length prefix + payload of a length-delimited field with a 2-byte tag *)
+Definition lf (x : N) : N := 3 + x + x / 128.
+
+Lemma lf_mono x y : x <= y -> lf x <= lf y.
+Proof. unfold lf. intros H. lia. Qed.
+
+Lemma sz_lenfield_le tag n : size_varint (tag * 8 + 2) <= 2 -> sz_lenfield tag n <= lf n.
+Proof. unfold sz_lenfield, lf. intros H. pose proof (sv_lin n). lia. Qed.
+
+Lemma sum_sv_le c vs :
+  Forall (fun v => size_varint v <= c) vs -> sum_N (map size_varint vs) <= c * N.of_nat (length vs).
+Proof.
+  induction 1 as [|v vs Hv _ IH]; [cbn; lia|].
+  cbn [map sum_N length]. lia.
+Qed.
+
+Lemma sz_packed_le tag c vs :
+  size_varint (tag * 8 + 2) <= 2 -> Forall (fun v => size_varint v <= c) vs ->
+  sz_packed tag vs <= lf (c * N.of_nat (length vs)).
+Proof.
+  intros Ht Hf. unfold sz_packed. destruct vs as [|v vs']; [unfold lf; lia|].
+  etransitivity; [apply sz_lenfield_le; exact Ht|]. apply lf_mono. apply sum_sv_le. exact Hf.
+Qed.
+
+Lemma u64_of_nat k : N.of_nat k < two64 -> u64_of_int32 (Z.of_nat k) = N.of_nat k.
+Proof. unfold u64_of_int32, two64. intros H. rewrite Z.mod_small by lia. lia. Qed.
+
+End SizeBounds.
+
+(* ---------- chunks and rank indexes ---------- *)
+Lemma chunks_count : forall fuel bs, 64 * length (chunks fuel bs) <= length bs + 63.
+Proof.
+  induction fuel as [|f IH]; intros bs; cbn [chunks]; [cbn; lia|].
+  destruct bs as [|b bs']; [cbn; lia|].
+  remember (b :: bs') as l eqn:E. cbn [length].
+  specialize (IH (skipn 64 l)). rewrite skipn_length in IH.
+  assert (1 <= length l) by (rewrite E; cbn; lia).
+  destruct (Nat.le_gt_cases 64 (length l)); [lia|].
+  assert (skipn 64 l = []) as Hs by (apply skipn_all2; lia).
+  rewrite Hs. destruct f; cbn [chunks length]; lia.
+Qed.
+
+Lemma chunks_total : forall fuel bs, lsum (@length bool) (chunks fuel bs) <= length bs.
+Proof.
+  induction fuel as [|f IH]; intros bs; cbn [chunks]; [cbn; lia|].
+  destruct bs as [|b bs']; [cbn; lia|].
+  remember (b :: bs') as l eqn:E. rewrite lsum_cons.
+  specialize (IH (skipn 64 l)). rewrite skipn_length in IH. rewrite firstn_length. lia.
+Qed.
+
+Lemma count_true_le bs : count_true bs <= length bs.
+Proof. induction bs as [|b bs IH]; cbn [count_true length]; [lia|]. destruct b; lia. Qed.
+
+Lemma rank64_length : forall cs acc, length (rank64 acc cs) = length cs.
+Proof. induction cs as [|c r IH]; intros acc; cbn [rank64 length]; [reflexivity|]. rewrite IH. reflexivity. Qed.
+
+Lemma rank64_bound : forall cs acc, Forall (fun x => x <= acc + lsum (@length bool) cs) (rank64 acc cs).
+Proof.
+  induction cs as [|c r IH]; intros acc; cbn [rank64]; [constructor|].
+  rewrite lsum_cons. constructor; [lia|].
+  eapply Forall_impl; [|apply IH]. cbn beta. intros x Hx. pose proof (count_true_le c). lia.
+Qed.
+
+Lemma rank128_facts : forall n cs acc, length cs <= n ->
+  2 * length (rank128 acc cs) <= length cs + 2 /\
+  Forall (fun x => x <= acc + lsum (@length bool) cs) (rank128 acc cs).
+Proof.
+  induction n as [|n IH]; intros cs acc Hn.
+  - destruct cs; [|cbn in Hn; lia]. cbn. split; [lia|]. constructor; [lia|constructor].
+  - destruct cs as [|c1 [|c2 r]].
+    + cbn. split; [lia|]. constructor; [lia|constructor].
+    + cbn. split; [lia|]. constructor; [lia|constructor].
+    + cbn [rank128]. cbn [length] in Hn.
+      destruct (IH r (acc + count_true c1 + count_true c2)) as [H1 H2]; [lia|].
+      rewrite !lsum_cons. cbn [length]. split; [lia|].
+      constructor; [lia|]. eapply Forall_impl; [|exact H2]. cbn beta. intros x Hx.
+      pose proof (count_true_le c1). pose proof (count_true_le c2). lia.
+Qed.
+
+(* ---------- size of a bitmap message built by newBM ---------- *)
+Section BitmapSize.
+Local Open Scope N_scope.
+
+Lemma chunks64_total bs : (lsum (@length bool) (chunks64 bs) <= length bs)%nat.
+Proof. apply chunks_total. Qed.
+
+Lemma size_mk_bm r128 bs :
+  N.of_nat (length bs) < 34359738368 ->
+  exists W R : N,
+    size_bitmap (mk_bm r128 bs) <= lf (10 * W) + lf (5 * R) /\
+    64 * W <= N.of_nat (length bs) + 63 /\
+    (if r128 then 2 * R <= W + 2 else R = W).
+Proof.
+  intros Hlen.
+  set (cs := chunks64 bs).
+  set (ranks := if r128 then rank128 0 cs else rank64 0 cs).
+  exists (N.of_nat (length cs)), (N.of_nat (length ranks)).
+  assert (Forall (fun x => (x <= length bs)%nat) ranks) as Hr.
+  { pose proof (chunks64_total bs) as Ht. fold cs in Ht. unfold ranks. destruct r128.
+    - destruct (rank128_facts (length cs) cs 0 (le_n _)) as [_ H].
+      eapply Forall_impl; [|exact H]. cbn beta. intros x Hx. lia.
+    - eapply Forall_impl; [|apply (rank64_bound cs 0)]. cbn beta. intros x Hx. lia. }
+  split; [|split].
+  - unfold size_bitmap, mk_bm. fold cs. fold ranks. cbn [bm_words bm_rank bm_select bm_unk map].
+    change (sz_packed 40 []) with 0. change (blen []) with 0. rewrite !N.add_0_r.
+    apply N.add_le_mono.
+    + replace (length cs) with (length (map bits_val cs)) by apply map_length.
+      apply sz_packed_le; [vm_compute; discriminate|].
+      rewrite Forall_forall. intros v _. apply sv_le10.
+    + replace (length ranks) with (length (map u64_of_int32 (map Z.of_nat ranks))) by (rewrite !map_length; reflexivity).
+      apply sz_packed_le; [vm_compute; discriminate|].
+      rewrite Forall_forall. intros v Hv. apply in_map_iff in Hv. destruct Hv as (z & <- & Hz).
+      apply in_map_iff in Hz. destruct Hz as (x & <- & Hx).
+      rewrite Forall_forall in Hr. specialize (Hr x Hx).
+      rewrite u64_of_nat by (unfold two64; lia). apply sv_le5. lia.
+  - pose proof (chunks_count (length bs) bs) as H. fold (chunks64 bs) in H. fold cs in H. lia.
+  - unfold ranks. destruct r128.
+    + destruct (rank128_facts (length cs) cs 0 (le_n _)) as [H _]. lia.
+    + rewrite rank64_length. reflexivity.
+Qed.
+
+End BitmapSize.
+
+(* ---------- the short-node table ---------- *)
+Definition tsumc (l : list (N * nat)) : nat := lsum snd l.
+Definition total (tbls : list (list (N * nat))) : nat := lsum tsumc tbls.
+Definition ocnt (x : option (N * nat)) : nat := match x with Some (_, c) => c | None => 0 end.
+Definition asum (a : list (option (N * nat))) : nat := lsum ocnt a.
+
+Lemma pop_nth_total : forall tbls k x t', pop_nth k tbls = (x, t') -> total tbls = ocnt x + total t'.
+Proof.
+  induction tbls as [|l r IH]; intros k x t' H.
+  - destruct k; cbn [pop_nth] in H; inversion H; subst; reflexivity.
+  - destruct k as [|k']; cbn [pop_nth] in H.
+    + destruct l as [|[bm c] l']; inversion H; subst; cbn [ocnt]; [reflexivity|].
+      unfold total, tsumc. rewrite !lsum_cons. cbn [snd]. lia.
+    + destruct (pop_nth k' r) as [x0 r'] eqn:E. inversion H; subst.
+      specialize (IH k' x r' E). unfold total in *. rewrite !lsum_cons. lia.
+Qed.
+
+Lemma assign_total : forall shorts tbls, asum (assign shorts tbls) <= total tbls.
+Proof.
+  induction shorts as [|s r IH]; intros tbls; cbn [assign]; [cbn; lia|].
+  destruct (pop_nth (popcount s) tbls) as [x t'] eqn:E.
+  pose proof (pop_nth_total _ _ _ _ E). specialize (IH t'). unfold asum in *. rewrite lsum_cons. lia.
+Qed.
+
+Lemma assign_length : forall shorts tbls, length (assign shorts tbls) = length shorts.
+Proof.
+  induction shorts as [|s r IH]; intros tbls; cbn [assign]; [reflexivity|].
+  destruct (pop_nth (popcount s) tbls) as [x t']. cbn [length]. rewrite IH. reflexivity.
+Qed.
+
+Lemma saved_bounds ss a : (0 <= saved ss a <= 17 * Z.of_nat (asum a))%Z.
+Proof.
+  induction a as [|x a IH]; [cbn; lia|].
+  unfold asum in *. rewrite lsum_cons. cbn [saved fold_right]. fold (saved ss a).
+  destruct x as [[bm c]|]; cbn [ocnt]; nia.
+Qed.
+
+Lemma bump_sum bm t : tsumc (bump bm t) = S (tsumc t).
+Proof.
+  induction t as [|[b c] r IH]; [reflexivity|]. cbn [bump].
+  destruct (N.eqb b bm); unfold tsumc in *; rewrite !lsum_cons; cbn [snd]; [lia|]. rewrite IH. lia.
+Qed.
+
+Lemma counts_sum k cs : tsumc (counts k cs) = lsum (fun p => if Nat.eqb (fst p) k then 1 else 0) cs.
+Proof.
+  unfold counts.
+  assert (forall acc, tsumc (fold_left (fun t p => if Nat.eqb (fst p) k then bump (snd p) t else t) cs acc)
+                      = tsumc acc + lsum (fun p => if Nat.eqb (fst p) k then 1 else 0) cs) as G.
+  { induction cs as [|p r IH]; intros acc; cbn [fold_left]; [cbn; lia|].
+    rewrite IH, lsum_cons. destruct (Nat.eqb (fst p) k); [rewrite bump_sum|]; lia. }
+  rewrite G. reflexivity.
+Qed.
+
+Lemma ins_sorted_sum a l : tsumc (ins_sorted a l) = snd a + tsumc l.
+Proof.
+  induction l as [|b r IH]; [reflexivity|]. cbn [ins_sorted].
+  destruct (cnt_before b a); unfold tsumc in *; rewrite !lsum_cons; [rewrite IH|]; lia.
+Qed.
+
+Lemma sort_cnt_sum l : tsumc (sort_cnt l) = tsumc l.
+Proof.
+  induction l as [|a r IH]; [reflexivity|]. cbn [sort_cnt fold_right]. fold (sort_cnt r).
+  rewrite ins_sorted_sum, IH. reflexivity.
+Qed.
+
+Lemma indicator_le1 a ks : NoDup ks -> lsum (fun k => if Nat.eqb a k then 1 else 0) ks <= 1.
+Proof.
+  induction 1 as [|k ks Hnotin Hnd IH]; [cbn; lia|]. rewrite lsum_cons.
+  destruct (Nat.eqb_spec a k); [|lia]. subst.
+  assert (lsum (fun k0 => if Nat.eqb k k0 then 1 else 0) ks = 0) as ->; [|lia].
+  rewrite (lsum_ext _ (fun _ => 0)); [rewrite lsum_const; lia|].
+  intros y Hy. destruct (Nat.eqb_spec k y); [subst; contradiction|reflexivity].
+Qed.
+
+Lemma lsum_swap {A B} (g : A -> B -> nat) (ks : list A) (cs : list B) :
+  lsum (fun k => lsum (fun p => g k p) cs) ks = lsum (fun p => lsum (fun k => g k p) ks) cs.
+Proof.
+  induction ks as [|k ks IH]; [cbn; rewrite lsum_const; lia|].
+  rewrite lsum_cons, IH. rewrite <- lsum_add. apply lsum_ext. intros p _. rewrite lsum_cons. reflexivity.
+Qed.
+
+Lemma total_sorted cs : total (sorted_tbls cs) <= length cs.
+Proof.
+  unfold total, sorted_tbls. rewrite lsum_map.
+  rewrite (lsum_ext _ (fun k => lsum (fun p => if Nat.eqb (fst p) k then 1 else 0) cs))
+    by (intros k _; rewrite sort_cnt_sum; apply counts_sum).
+  rewrite (lsum_swap (fun k p => if Nat.eqb (fst p) k then 1 else 0)).
+  rewrite length_lsum. unfold lsum at 1 3.
+  induction cs as [|p r IH]; [cbn; lia|]. cbn [map sum_list].
+  pose proof (indicator_le1 (fst p) (seq 0 (S max_short)) (seq_NoDup _ _)). lia.
+Qed.
+
+Lemma mem_incr_0 tbls : (mem_incr tbls 0 <= 64)%Z.
+Proof. unfold mem_incr. pose proof (saved_bounds 0 (assign (shorts 0) tbls)). cbn [Nat.pow]. lia. Qed.
+
+Lemma find_short_size_spec tbls :
+  find_short_size tbls <= max_short /\
+  (find_short_size tbls = 0 \/ (mem_incr tbls (find_short_size tbls) < mem_incr tbls 0)%Z).
+Proof.
+  unfold find_short_size.
+  set (step := fun (st : nat * Z) ss => let m := mem_incr tbls ss in if (m <? snd st)%Z then (ss, m) else st).
+  assert (forall l st,
+            Forall (fun x => x <= max_short) l ->
+            (fst st <= max_short /\ snd st = mem_incr tbls (fst st) /\ (snd st <= mem_incr tbls 0)%Z /\
+             (fst st = 0 \/ (snd st < mem_incr tbls 0)%Z)) ->
+            let st' := fold_left step l st in
+            fst st' <= max_short /\ snd st' = mem_incr tbls (fst st') /\ (snd st' <= mem_incr tbls 0)%Z /\
+            (fst st' = 0 \/ (snd st' < mem_incr tbls 0)%Z)) as G.
+  { induction l as [|x l IH]; intros st Hl Hst; [exact Hst|].
+    cbn [fold_left]. inversion Hl; subst. apply IH; [assumption|].
+    assert (step st x = if (mem_incr tbls x <? snd st)%Z then (x, mem_incr tbls x) else st) as -> by reflexivity.
+    destruct (Z.ltb_spec (mem_incr tbls x) (snd st)); cbn [fst snd]; [|exact Hst].
+    destruct Hst as (S1 & S2 & S3 & S4). repeat split; lia. }
+  destruct (G (seq 1 max_short) (0, mem_incr tbls 0)) as (H1 & H2 & H3 & H4).
+  - rewrite Forall_forall. intros x Hx. apply in_seq in Hx. lia.
+  - cbn [fst snd]. repeat split; lia.
+  - split; [exact H1|]. destruct H4 as [H4|H4]; [left; exact H4|right]. rewrite <- H2. exact H4.
+Qed.
+
+Lemma table_len_bound cs :
+  64 * 2 ^ find_short_size (sorted_tbls cs) <= 64 + 17 * length cs.
+Proof.
+  set (tbls := sorted_tbls cs). destruct (find_short_size_spec tbls) as [_ [H0|Hlt]].
+  - rewrite H0. cbn. lia.
+  - pose proof (mem_incr_0 tbls). set (ss := find_short_size tbls) in *.
+    unfold mem_incr in Hlt at 1.
+    pose proof (saved_bounds ss (assign (shorts ss) tbls)) as [_ Hs].
+    pose proof (assign_total (shorts ss) tbls). pose proof (total_sorted cs). fold tbls in H1.
+    set (T := 2 ^ ss) in *. lia.
+Qed.
+
+Lemma short_table_length tbls ss : length (short_table tbls ss) = 2 ^ ss.
+Proof. unfold short_table, shorts. rewrite map_length, assign_length, map_length, seq_length. reflexivity. Qed.
+
+(* the entries of the table are 17-bit bitmaps *)
+Definition okbm (p : N * nat) : Prop := (fst p < 131072)%N.
+
+Lemma bits_val_lt bs : (bits_val bs < 2 ^ N.of_nat (length bs))%N.
+Proof.
+  induction bs as [|b bs IH]; [cbn; lia|]. cbn [bits_val length].
+  replace (N.of_nat (S (length bs))) with (N.succ (N.of_nat (length bs))) by lia.
+  rewrite N.pow_succ_r'. destruct b; lia.
+Qed.
+
+Lemma bm17_lt labels : (bm17 labels < 131072)%N.
+Proof.
+  unfold bm17. pose proof (bits_val_lt (label_bits 17 labels)) as H.
+  unfold label_bits in H at 2. rewrite map_length, seq_length in H. exact H.
+Qed.
+
+Lemma bump_ok bm t : (bm < 131072)%N -> Forall okbm t -> Forall okbm (bump bm t).
+Proof.
+  intros Hb. induction 1 as [|[b c] r Hp Hr IH]; cbn [bump]; [constructor; [exact Hb|constructor]|].
+  destruct (N.eqb b bm); constructor; [exact Hp|exact Hr|exact Hp|exact IH].
+Qed.
+
+Lemma counts_ok k cs : Forall (fun p => (snd p < 131072)%N) cs -> Forall okbm (counts k cs).
+Proof.
+  unfold counts. intros H.
+  assert (forall acc, Forall okbm acc ->
+            Forall okbm (fold_left (fun t p => if Nat.eqb (fst p) k then bump (snd p) t else t) cs acc)) as G.
+  { induction H as [|p r Hp _ IH]; intros acc Ha; cbn [fold_left]; [exact Ha|].
+    apply IH. destruct (Nat.eqb (fst p) k); [apply bump_ok; assumption|exact Ha]. }
+  apply G. constructor.
+Qed.
+
+Lemma ins_sorted_ok a l : okbm a -> Forall okbm l -> Forall okbm (ins_sorted a l).
+Proof.
+  intros Ha. induction 1 as [|b r Hb Hr IH]; cbn [ins_sorted]; [constructor; [exact Ha|constructor]|].
+  destruct (cnt_before b a); constructor; try assumption. constructor; assumption.
+Qed.
+
+Lemma sort_cnt_ok l : Forall okbm l -> Forall okbm (sort_cnt l).
+Proof.
+  induction 1 as [|a r Ha _ IH]; [constructor|]. cbn [sort_cnt fold_right]. fold (sort_cnt r).
+  apply ins_sorted_ok; assumption.
+Qed.
+
+Lemma cands_ok ins : Forall (fun p => (snd p < 131072)%N) (cands ins).
+Proof.
+  unfold cands. rewrite Forall_forall. intros p Hp. apply in_flat_map in Hp. destruct Hp as (i & _ & Hp).
+  destruct (length (in_labels i) <=? max_short); [|destruct Hp].
+  destruct Hp as [<-|[]]. cbn [snd]. apply bm17_lt.
+Qed.
+
+Lemma sorted_tbls_ok cs : Forall (fun p => (snd p < 131072)%N) cs -> Forall (Forall okbm) (sorted_tbls cs).
+Proof.
+  intros H. unfold sorted_tbls. rewrite Forall_forall. intros l Hl. apply in_map_iff in Hl.
+  destruct Hl as (k & <- & _). apply sort_cnt_ok. apply counts_ok. exact H.
+Qed.
+
+Definition okopt (x : option (N * nat)) : Prop := match x with Some p => okbm p | None => True end.
+
+Lemma pop_nth_ok : forall tbls k x t', Forall (Forall okbm) tbls -> pop_nth k tbls = (x, t') ->
+  okopt x /\ Forall (Forall okbm) t'.
+Proof.
+  induction tbls as [|l r IH]; intros k x t' Hf H.
+  - destruct k; cbn [pop_nth] in H; inversion H; subst; (split; [exact I|constructor]).
+  - inversion Hf as [|? ? Hl Hr]; subst. destruct k as [|k']; cbn [pop_nth] in H.
+    + destruct l as [|p l']; inversion H; subst; [split; [exact I|exact Hf]|].
+      inversion Hl; subst. split; [assumption|]. constructor; assumption.
+    + destruct (pop_nth k' r) as [x0 r'] eqn:E. inversion H; subst.
+      destruct (IH k' x r' Hr E) as [H1 H2]. split; [exact H1|]. constructor; assumption.
+Qed.
+
+Lemma assign_ok : forall shorts tbls, Forall (Forall okbm) tbls -> Forall okopt (assign shorts tbls).
+Proof.
+  induction shorts as [|s r IH]; intros tbls Hf; cbn [assign]; [constructor|].
+  destruct (pop_nth (popcount s) tbls) as [x t'] eqn:E.
+  destruct (pop_nth_ok _ _ _ _ Hf E) as [H1 H2]. constructor; [exact H1|apply IH; exact H2].
+Qed.
+
+Lemma short_table_ok tbls ss : Forall (Forall okbm) tbls -> Forall (fun v => (v < 131072)%N) (short_table tbls ss).
+Proof.
+  intros Hf. unfold short_table. pose proof (assign_ok (shorts ss) tbls Hf) as H.
+  induction H as [|x a Hx _ IH]; cbn [map]; constructor; [|exact IH].
+  destruct x as [[bm c]|]; [exact Hx|lia].
+Qed.
